@@ -43,10 +43,10 @@ def to_orcaflex(self, model, minEnergy=1e-6):
 
     """
 
-    dirs = np.array(self.dir.values)
-    freqs = np.array(self.freq.values)
+    dirs = np.array(self.efth.dir.values)
+    freqs = np.array(self.efth.freq.values)
 
-    ddir = self.dd
+    ddir = self.efth.spec.dd
 
     # verify what all coordinates other than dir and freq are one
     if not np.prod(self.efth.shape) == len(dirs) * len(freqs):
